@@ -258,16 +258,48 @@ func (c *Check) schemaPredicate(rule, fn, schemaConst string) {
 		return
 	}
 	okValidate, okValid := false, false
-	for _, f := range c.closeFacts(c.P.SummaryOf(g).SuccessFacts) {
-		s := f.T.String()
-		if !strings.Contains(s, "gojsonschema.Validate") || !strings.Contains(s, "#"+schemaConst) || !f.T.ContainsAtom("P0") {
-			continue
+	scan := func(fs FactSet) (v, valid bool) {
+		for _, f := range c.closeFacts(fs) {
+			s := f.T.String()
+			if !strings.Contains(s, "gojsonschema.Validate") || !strings.Contains(s, "#"+schemaConst) || !f.T.ContainsAtom("P0") {
+				continue
+			}
+			if f.T.Op == "ok" && !f.Neg {
+				v = true
+			}
+			if strings.HasSuffix(f.T.Op, "Result.Valid") && !f.Neg {
+				valid = true
+			}
 		}
-		if f.T.Op == "ok" && !f.Neg {
+		return
+	}
+	okValidate, okValid = scan(c.P.SummaryOf(g).SuccessFacts)
+	if !okValidate {
+		// an absent document may be accepted without validation (the callers' predicate is "non-empty and invalid"):
+		// every accepting path either validated the document or established that it is empty
+		nAcc, all, allValid := 0, true, true
+		for _, pa := range c.P.PathsOf(g) {
+			if !pa.OK() {
+				continue
+			}
+			nAcc++
+			af := pa.AllFacts()
+			if af.Has(Fact{T: mk("nonempty", atom("P0")), Neg: true}) {
+				continue
+			}
+			v, valid := scan(af)
+			if !v {
+				all = false
+			}
+			if !valid {
+				allValid = false
+			}
+		}
+		if nAcc >= 2 && all {
 			okValidate = true
-		}
-		if strings.HasSuffix(f.T.Op, "Result.Valid") && !f.Neg {
-			okValid = true
+			if allValid {
+				okValid = true
+			}
 		}
 	}
 	if !okValid {
